@@ -1042,42 +1042,63 @@ func checkC08PartReference(c *Check, L *Loaded, r4 *Rule) {
 				meta.set("IsConst", MapV{Keys: []Val{StrV("a"), StrV("n")}, Vals: []Val{boolV(true), boolV(true)}})
 				return TupleV{meta, boolV(true)}, true
 			}
-			borrowed, seen2 := false, false
-			in.RunAll(64, func() {
-				cobj := mk()
-				cobj.set("optimizationLevel", ConstV{V: constantInt(level), T: intType()})
-				fw := newObj("funcWrapper")
-				fw.set("funcDecl", decl2)
-				fw.set("irFunc", &IRFuncV{Name: "callee"})
-				cobj.set("functions", MapV{Keys: []Val{StrV("f")}, Vals: []Val{fw}})
-				e := newObj("ast.FuncCall")
-				e.set("Func", decl2)
-				al := exprNode("l", LT)
-				al.Kind = "ast.Ident"
-				al.set("Declaration", ldecl)
-				nested := exprNode("nested", &DT{Kind: "ZAHL"})
-				nested.Kind = "ast.FuncCall"
-				e.set("Args", MapV{Keys: []Val{StrV("a"), StrV("n")}, Vals: []Val{al, nested}})
-				in.CallFunc(L.Fn("src/compiler.(*compiler).VisitFuncCall"), cobj, []Val{e})
-				for _, ev := range in.Events {
-					if ev.Kind == "cerr" || ev.Kind == "panic" {
-						return
+			// the other argument is a call, or an operator that is overloaded by a function (which is a call as well)
+			for _, nk := range []struct{ kind, label string }{
+				{"ast.FuncCall", "g(...)"},
+				{"ast.UnaryExpr", "an overloaded unary operator applied to a name"},
+				{"ast.BinaryExpr", "an overloaded binary operator applied to names"},
+				{"ast.TernaryExpr", "an overloaded ternary operator applied to names"},
+				{"ast.CastExpr", "an overloaded conversion of a name"},
+			} {
+				nk := nk
+				borrowed, seen2 := false, false
+				in.RunAll(64, func() {
+					cobj := mk()
+					cobj.set("optimizationLevel", ConstV{V: constantInt(level), T: intType()})
+					fw := newObj("funcWrapper")
+					fw.set("funcDecl", decl2)
+					fw.set("irFunc", &IRFuncV{Name: "callee"})
+					cobj.set("functions", MapV{Keys: []Val{StrV("f")}, Vals: []Val{fw}})
+					e := newObj("ast.FuncCall")
+					e.set("Func", decl2)
+					al := exprNode("l", LT)
+					al.Kind = "ast.Ident"
+					al.set("Declaration", ldecl)
+					nested := exprNode("nested", &DT{Kind: "ZAHL"})
+					nested.Kind = nk.kind
+					if nk.kind != "ast.FuncCall" {
+						plain := func(n string) *Obj {
+							o := exprNode(n, &DT{Kind: "ZAHL"})
+							o.Kind = "ast.Ident"
+							return o
+						}
+						nested.set("Lhs", plain("x"))
+						nested.set("Mid", plain("y"))
+						nested.set("Rhs", plain("z"))
+						nested.set("OverloadedBy", newObj("ast.FuncDecl"))
 					}
-				}
-				for _, ev := range in.Events {
-					if ev.Kind == "call" && ev.Msg == "callee" && len(ev.Data) == 3 {
-						seen2 = true
-						if av, ok := ev.Data[1].(*IRVal); ok && av == storage {
-							borrowed = true
+					e.set("Args", MapV{Keys: []Val{StrV("a"), StrV("n")}, Vals: []Val{al, nested}})
+					in.CallFunc(L.Fn("src/compiler.(*compiler).VisitFuncCall"), cobj, []Val{e})
+					for _, ev := range in.Events {
+						if ev.Kind == "cerr" || ev.Kind == "panic" {
+							return
 						}
 					}
+					for _, ev := range in.Events {
+						if ev.Kind == "call" && ev.Msg == "callee" && len(ev.Data) == 3 {
+							seen2 = true
+							if av, ok := ev.Data[1].(*IRVal); ok && av == storage {
+								borrowed = true
+							}
+						}
+					}
+				})
+				k2 := fmt.Sprintf("compiler.(*compiler).VisitFuncCall|-O%d f(l, %s): value parameter judged constant, another argument evaluated by a call", level, nk.label)
+				if !seen2 {
+					r4.Und(k2, token.NoPos, "call not observed")
+				} else {
+					r4.Decide(!borrowed, k2, token.NoPos, "the value parameter receives its own copy", "the variable itself is passed although a later argument is evaluated by a call: if that call changes the variable (it can take it by Referenz), the callee sees the changed value where the language promises the value at the time of the call")
 				}
-			})
-			k2 := fmt.Sprintf("compiler.(*compiler).VisitFuncCall|-O%d f(l, g(...)): value parameter judged constant, another argument evaluated by a call", level)
-			if !seen2 {
-				r4.Und(k2, token.NoPos, "call not observed")
-			} else {
-				r4.Decide(!borrowed, k2, token.NoPos, "the value parameter receives its own copy", "the variable itself is passed although a later argument is evaluated by a call: if that call changes the variable (it can take it by Referenz), the callee sees the changed value where the language promises the value at the time of the call")
 			}
 		}
 		key := fmt.Sprintf("compiler.(*compiler).VisitFuncCall|-O%d f(l, l an der Stelle i): value parameter judged constant, Referenz to an element", level)
